@@ -43,7 +43,8 @@ PROBES = ["card skipped by sampler (all its contests finished)", "card listing n
           "size beyond the number of real CVRs (phantoms needed)", "sample sizes handed over as numpy integers",
           "sample size above 256", "contest added in place to cards already drawn from",
           "cards carry sampling probabilities from an earlier estimate",
-          "continued call without a contest that needs no more cards"]
+          "continued call without a contest that needs no more cards",
+          "corrected export: same contests, new records, one sampled card lists one more contest"]
 
 
 class SchedPrng:
@@ -566,6 +567,59 @@ def execute(case):
                                                  f"{[float(x) for x in d][:8]}; its {sizes[cid]} cards give "
                                                  f"{[float(x) for x in exp][:8]}")
         out.units["assertion_data_sequences"] += sum(len(c.assertions) for c in contests.values())
+        # ---- C07.f again: a corrected export.  The same Contest objects, a new list of records with the same numbers in
+        # which one already-sampled card turns out to list one more contest (before that contest's cut-off); the contest
+        # is given one card more, so its cut-off, and the sample as a whole, are what they were - but its data are not
+        pick = None
+        for cid in sorted(contests):
+            if sizes[cid] == 0 or cid not in ref_thr:
+                continue
+            for i in idx:
+                if cid not in cards[i]["votes"] and nums[i] < ref_thr[cid] and not cards[i].get("phantom"):
+                    pick = (cid, i)
+                    break
+            if pick:
+                break
+        if pick and case.get("corrected_export", True):
+            cidx, i_star = pick
+            cards_b = copy.deepcopy(cards)
+            cards_b[i_star]["votes"][cidx] = {}
+            sizes_b = dict(sizes)
+            sizes_b[cidx] = sizes[cidx] + 1
+            cvrs_b = W.mk_cvrs(ns, cards_b)
+            for c_, n_ in zip(cvrs_b, nums):
+                c_.sample_num = n_
+            rb_idx, rb_thr, rb_per = reference(cards_b, nums, sizes_b)
+            keep_state = {cid: (con.sample_size, con.sample_threshold) for cid, con in contests.items()}
+            try:
+                with W.quiet():
+                    for cid, con in contests.items():
+                        con.sample_size = sizes_b[cid]
+                    idx_b = [int(i) for i in ns.CVR.consistent_sampling(cvr_list=cvrs_b, contests=contests)]
+                    ns.Assertion.set_all_margins_from_cvrs(audit=audit, contests=contests, cvr_list=cvrs_b)
+                out.probe("corrected export: same contests, new records, one sampled card lists one more contest")
+                if idx_b == rb_idx:
+                    mvrs_b = W.mk_cvrs(ns, [dict(spec) for spec in mvr_specs]) if idx_b == idx else None
+                    if mvrs_b is not None:
+                        mvr_of_b = {m.id: m for m in mvrs_b}
+                        sample_b = [cvrs_b[i] for i in idx_b]
+                        for cid, con in contests.items():
+                            if sizes_b[cid] == 0:
+                                continue
+                            for key, asn in sorted(con.assertions.items()):
+                                with W.quiet():
+                                    d, _u = asn.mvrs_to_data(mvrs_b, sample_b)
+                                    exp = [asn.overstatement_assorter(mvr_of_b[cards_b[i]["id"]], cvrs_b[i], use_style=True)
+                                           for i in rb_per[cid]]
+                                if len(d) != len(exp) or any(not tight(a, b) for a, b in zip(d, exp)):
+                                    out.violate("C07.f", "data/corrected-export",
+                                                f"after a corrected export (card {cards[i_star]['id']} also lists {cidx}) assertion {key} of "
+                                                f"{cid} sees {len(d)} values {[float(x) for x in d][:8]}; its {sizes_b[cid]} cards give "
+                                                f"{[float(x) for x in exp][:8]}")
+            except Exception as e:
+                out.raised("corrected export", e)
+            for cid, con in contests.items():
+                con.sample_size, con.sample_threshold = keep_state[cid]
     return out
 
 
